@@ -1057,6 +1057,9 @@ class Gen:
     def _suite_of(self, tpl):
         return tpl.fn[1].split(".", 1)[1]
 
+    INF_PK = B(b"\xc0" + b"\x00" * 47)
+    INF_SIG = B(b"\xc0" + b"\x00" * 95)
+
     def gen_verify(self, b, tpl):
         r = self.rng
         suite = self._suite_of(tpl)
@@ -1065,6 +1068,19 @@ class Gen:
         msg = B(MSGS[j])
         if pk is None or sig is None:
             return [lit(B(b"")), lit(msg), lit(B(b""))], {}
+        if r.random() < 0.14:
+            # inputs that only the explicit validation steps reject (identity key with
+            # identity signature, over-long key, truncated signature, mutable message)
+            k = r.randrange(5)
+            if k == 0:
+                return [lit(self.INF_PK), lit(msg), lit(self.INF_SIG)], {}
+            if k == 1:
+                return [lit(B(b"\x00" + bytes.fromhex(pk[1]))), lit(msg), lit(sig)], {}
+            if k == 2:
+                return [lit(pk), lit(["bytearray", msg[1]]), lit(sig)], {}
+            if k == 3:
+                return [lit(pk), lit(msg), lit(B(bytes.fromhex(sig[1])[:95]))], {}
+            return [lit(self.INF_PK), lit(msg), lit(sig)], {}
         x = r.random()
         regs = b.avail("b:sig")
         if x < 0.55:
@@ -1089,6 +1105,8 @@ class Gen:
         pk, proof = self.pool_pk(i), self.pool_pop(i)
         if pk is None or proof is None:
             return [lit(B(b"")), lit(B(b""))], {}
+        if r.random() < 0.1:
+            return [lit(self.INF_PK), lit(self.INF_SIG)], {}
         x = r.random()
         if x < 0.6:
             pass
@@ -1126,7 +1144,7 @@ class Gen:
     def gen_aggverify(self, b, tpl):
         r = self.rng
         suite = self._suite_of(tpl)
-        n = r.choice([1, 2, 2, 3])
+        n = r.choice([1, 2, 2, 3]) if suite == "G2Basic" else r.choice([1, 2, 3, 3])
         idx = r.sample(range(len(SKS)), n)
         if r.random() < 0.7:
             j0 = r.randrange(3)
@@ -1136,6 +1154,10 @@ class Gen:
                 idx = idx[:len(js)]
         else:
             js = [r.randrange(3) for _ in idx]
+        if suite != "G2Basic" and n >= 3 and r.random() < 0.7:
+            # repeated messages are legal outside the basic suite: a, b, a
+            a_, b_ = r.sample(range(3), 2)
+            js = [a_, b_, a_][:n] if r.random() < 0.5 else [a_, a_, b_][:n]
         pks = [self.pool_pk(i) for i in idx]
         sigs = [self.pool_sig(suite, i, j) for i, j in zip(idx, js)]
         if not sigs or any(x is None for x in pks + sigs):
@@ -1144,6 +1166,16 @@ class Gen:
         if agg is None:
             agg = B(b"")
         msgs = [B(MSGS[j]) for j in js]
+        if r.random() < 0.1:
+            k = r.randrange(3)
+            if k == 0:
+                return [{"list": []}, {"list": []}, lit(self.INF_SIG)], {}
+            if k == 1:
+                extra = B(MSGS[(js[-1] + 1) % 3])
+                return [{"list": [lit(p) for p in pks]},
+                        {"list": [lit(m) for m in msgs + [extra]]}, lit(agg)], {}
+            return [{"list": [lit(self.INF_PK)]}, {"list": [lit(msgs[0])]},
+                    lit(self.INF_SIG)], {}
         x = r.random()
         if x < 0.12:
             msgs = msgs[:-1]
@@ -1170,6 +1202,14 @@ class Gen:
         agg = self.gold_value(["c", "suite.G2ProofOfPossession", "Aggregate"],
                               [["list", sigs]]) or B(b"")
         msg = B(MSGS[j])
+        if r.random() < 0.1:
+            k = r.randrange(3)
+            if k == 0:
+                return [{"list": []}, lit(msg), lit(self.INF_SIG)], {}
+            if k == 1:
+                return [{"list": [lit(self.INF_PK)]}, lit(msg), lit(self.INF_SIG)], {}
+            return [{"list": [lit(B(bytes.fromhex(pks[0][1])[:47]))] + [lit(p) for p in pks[1:]]},
+                    lit(msg), lit(agg)], {}
         x = r.random()
         if x < 0.15:
             pks = pks[:-1]
@@ -1515,6 +1555,36 @@ class Scenarios(Gen):
                     if "out" in nm:
                         nm["out"] = b.new_reg(tpl.out)
                     b.ops.append(nm)
+            # a point argument rebuilt by the caller from its coordinates: a fresh
+            # tuple around the same coordinate objects, dropped after the call, then
+            # another fresh tuple (same x object, the negated point's y) - what a memo
+            # keyed by the identity of an argument container cannot tell apart once
+            # the first container is dead and its address recycled
+            ptpos = [p for p in range(npos) if isinstance(tpl.args[p], str) and
+                     tpl.args[p].startswith("pt:") and tpl.args[p].split(":")[1] in FAMS and
+                     ("reg" in op1["args"][p] or "const" in op1["args"][p]) and
+                     "idx" not in op1["args"][p]]
+            if ptpos and tpl.cost <= 600:
+                pos = r.choice(ptpos)
+                _, fam, grp = tpl.args[pos].split(":")
+                src = op1["args"][pos]
+                nc = 3 if FAMS[fam]["opt"] else 2
+
+                def part(sp, i):
+                    if "reg" in sp:
+                        return {"reg": sp["reg"], "idx": i}
+                    return {"const": sp["const"], "path": list(sp.get("path", [])) + [i]}
+                ng = b.emit("%s.%s.neg" % (fam, grp), args=[src])
+                same = {"tuple": [part(src, i) for i in range(nc)]}
+                flipped = {"tuple": [part(src, 0), {"reg": ng["out"], "idx": 1}] +
+                           [part(src, i) for i in range(2, nc)]}
+                for variant in (same, flipped, same):
+                    rb = dict(op1)
+                    rb["args"] = list(op1["args"])
+                    rb["args"][pos] = variant
+                    if "out" in rb:
+                        rb["out"] = b.new_reg(tpl.out)
+                    b.ops.append(rb)
             if tpl.cost <= 150 or r.random() < 0.3:
                 last = dict(op1)
                 if "out" in last:
@@ -1640,6 +1710,15 @@ class Scenarios(Gen):
                               out=True))
             if pk is not None:
                 per.append(op(suite + "._is_valid_pubkey", [lit(pk)]))
+            if r.random() < 0.5:
+                per.append(op(suite + ".Verify", [lit(self.INF_PK), lit(B(MSGS[js[0]])),
+                                                  lit(self.INF_SIG)]))
+            if r.random() < 0.25:
+                sg = self.pool_sig(suite, i, js[0])
+                if pk is not None and sg is not None:
+                    per.insert(r.randrange(len(per) + 1),
+                               op(suite + ".Verify", [lit(pk), lit(B(MSGS[js[0]])),
+                                                      lit(B(bytes.fromhex(sg[1])[:95]))]))
             ops.append(per)
         if r.random() < 0.6:
             ops[2].append(op("POP.PopProve", [sk], out=True))
